@@ -7,6 +7,8 @@ import Mathlib.Algebra.Star.BigOperators
 import Mathlib.LinearAlgebra.Matrix.DotProduct
 import Mathlib.LinearAlgebra.Matrix.ConjTranspose
 import Mathlib.LinearAlgebra.Matrix.Trace
+import Mathlib.Analysis.Real.Sqrt
+import Mathlib.Data.Complex.Basic
 import NumqiModel.Backward
 import NumqiProofs.PartialTrace
 import NumqiProps.C03
@@ -542,6 +544,129 @@ theorem sylvBackward_adjoint (V : ℕ → ℕ → F) (hV1 : (toMat m V)ᴴ * toM
     rw [step]
     exact ih (fun a => s a * s a) hreal' hg' (sylvStep m V s G) (δ * specMat m V s + specMat m V s * δ)
 
+/-! ### singular inputs: the `tmp1[ind_zero…] = 0` branch (audit M5) -/
+
+/-- the part of `V†GV` the rule discards: the diagonal entries that belong to zero roots -/
+def kernelDiag (m : ℕ) (V G : ℕ → ℕ → F) (s : ℕ → F) : Matrix (Fin m) (Fin m) F :=
+  toMat m fun a b => if a = b ∧ s a = 0 then rotateIn m V G a b else 0
+
+/-- **with zero roots the rule solves `S X + X S = G − V·K·V†`**, `K` = the zero-root diagonal of `V†GV` (for exactly one zero root
+`z`: `V K V† = P G P`, `P` the projector on the kernel).  Guard: two *different* roots never add up to zero (at most one zero
+root among non-negative roots) and non-zero roots have non-zero double; with two zero roots the code divides `0/0` (inf/NaN). -/
+theorem sylvStep_singular (V G : ℕ → ℕ → F) (s : ℕ → F)
+    (hV1 : (toMat m V)ᴴ * toMat m V = 1) (hV2 : toMat m V * (toMat m V)ᴴ = 1)
+    (hoff : ∀ a b, a < m → b < m → a ≠ b → s a + s b ≠ 0) (hdiag : ∀ a, a < m → s a ≠ 0 → s a + s a ≠ 0) :
+    let S := toMat m V * Matrix.diagonal (fun a : Fin m => s a.val) * (toMat m V)ᴴ
+    let X := toMat m (sylvStep m V s G)
+    S * X + X * S = toMat m G - toMat m V * kernelDiag m V G s * (toMat m V)ᴴ := by
+  intro S X
+  set Vm := toMat m V with hVm
+  set D : Matrix (Fin m) (Fin m) F := Matrix.diagonal (fun a : Fin m => s a.val) with hD
+  set M : Matrix (Fin m) (Fin m) F :=
+    toMat m (fun a b => if a = b ∧ s a = 0 then 0 else rotateIn m V G a b / (s a + s b)) with hM
+  have hX : X = Vm * M * Vmᴴ := toMat_rotateOut V _
+  have hDM : D * M + M * D = Vmᴴ * toMat m G * Vm - kernelDiag m V G s := by
+    rw [← toMat_rotateIn]
+    ext a b
+    simp only [hD, hM, kernelDiag, Matrix.add_apply, Matrix.sub_apply, Matrix.diagonal_mul, Matrix.mul_diagonal, toMat,
+      Matrix.of_apply]
+    by_cases hz : a.val = b.val ∧ s a.val = 0
+    · rw [if_pos hz, if_pos hz]; simp
+    · rw [if_neg hz, if_neg hz, sub_zero]
+      have hne : s a.val + s b.val ≠ 0 := by
+        by_cases hab : a.val = b.val
+        · rw [← hab]; exact hdiag a.val a.isLt (fun h0 => hz ⟨hab, h0⟩)
+        · exact hoff a.val b.val a.isLt b.isLt hab
+      field_simp
+  calc S * X + X * S = Vm * D * (Vmᴴ * Vm) * M * Vmᴴ + Vm * M * (Vmᴴ * Vm) * D * Vmᴴ := by
+        rw [hX]; simp only [S, Matrix.mul_assoc]; rfl
+    _ = Vm * (D * M + M * D) * Vmᴴ := by
+        rw [hV1]; simp only [Matrix.mul_one, Matrix.mul_add, Matrix.add_mul, Matrix.mul_assoc]
+    _ = (Vm * Vmᴴ) * toMat m G * (Vm * Vmᴴ) - Vm * kernelDiag m V G s * Vmᴴ := by
+        rw [hDM]; simp only [Matrix.mul_sub, Matrix.sub_mul, Matrix.mul_assoc]
+    _ = _ := by rw [hV2]; simp
+
+/-- **the gradient on a singular input is the VJP restricted to the range**: it is exact for every perturbation `δS` whose
+`V†·δS·V` has no diagonal entry on a zero root (no kernel–kernel component) -/
+theorem sylvester_singular_adjoint (V G : ℕ → ℕ → F) (s : ℕ → F)
+    (hV1 : (toMat m V)ᴴ * toMat m V = 1) (hV2 : toMat m V * (toMat m V)ᴴ = 1)
+    (hoff : ∀ a b, a < m → b < m → a ≠ b → s a + s b ≠ 0) (hdiag : ∀ a, a < m → s a ≠ 0 → s a + s a ≠ 0)
+    (hreal : ∀ a, star (s a) = s a) (δS : Matrix (Fin m) (Fin m) F)
+    (hδ : ∀ a : Fin m, s a.val = 0 → ((toMat m V)ᴴ * δS * toMat m V) a a = 0) :
+    Matrix.trace ((toMat m G)ᴴ * δS)
+      = Matrix.trace ((toMat m (sylvStep m V s G))ᴴ * (δS * specMat m V s + specMat m V s * δS)) := by
+  have hsolve := sylvStep_singular V G s hV1 hV2 hoff hdiag
+  simp only at hsolve
+  have hadj := sylvester_adjoint (specMat m V s) (toMat m (sylvStep m V s G)) _ δS (specMat_hermitian V s hreal) hsolve
+  rw [← hadj, Matrix.conjTranspose_sub, Matrix.sub_mul, Matrix.trace_sub]
+  have hzero : Matrix.trace ((toMat m V * kernelDiag m V G s * (toMat m V)ᴴ)ᴴ * δS) = 0 := by
+    set W := (toMat m V)ᴴ * δS * toMat m V with hW
+    have e : Matrix.trace ((toMat m V * kernelDiag m V G s * (toMat m V)ᴴ)ᴴ * δS)
+        = Matrix.trace ((kernelDiag m V G s)ᴴ * W) := by
+      rw [Matrix.conjTranspose_mul, Matrix.conjTranspose_mul, Matrix.conjTranspose_conjTranspose, hW]
+      simp only [Matrix.mul_assoc]
+      rw [Matrix.trace_mul_comm]
+      simp only [Matrix.mul_assoc]
+    rw [e, Matrix.trace]
+    refine Finset.sum_eq_zero fun a _ => ?_
+    rw [Matrix.diag_apply, Matrix.mul_apply]
+    refine Finset.sum_eq_zero fun b _ => ?_
+    rw [Matrix.conjTranspose_apply]
+    have hK : kernelDiag m V G s b a = if b.val = a.val ∧ s b.val = 0 then rotateIn m V G b.val a.val else 0 := rfl
+    rw [hK]
+    by_cases hz : b.val = a.val ∧ s b.val = 0
+    · have hab : b = a := Fin.ext hz.1
+      subst hab
+      rw [hδ b hz.2, mul_zero]
+    · rw [if_neg hz, star_zero, zero_mul]
+  rw [hzero, sub_zero]
+
+/-! ### forward map of the PSD square root and uniqueness of its differential (audit M4) -/
+
+omit [DecidableEq F] in
+theorem toMat_psdForward [Channel.Analytic F] (V : ℕ → ℕ → F) (r : ℕ) (evl : ℕ → F) :
+    toMat m (psdSqrtmForward m V r evl) = specMat m V (storedRoots r evl) := by
+  ext i j
+  simp only [psdSqrtmForward, specMat, toMat, sumRange_eq_sum, Matrix.of_apply, Matrix.mul_apply, Matrix.diagonal_apply,
+    Matrix.conjTranspose_apply, conj, Finset.sum_range]
+  refine Finset.sum_congr rfl fun a _ => ?_
+  rw [Finset.sum_eq_single a]
+  · simp
+  · intro b _ hb; simp [hb]
+  · intro h; exact absurd (Finset.mem_univ a) h
+
+omit [DecidableEq F] in
+/-- **the Sylvester operator `δ ↦ S·δ + δ·S` is injective under the guard**: the differential `δS` of the square root is the
+unique solution of `δS·S + S·δS = δA` -/
+theorem sylvester_unique_aux (V : ℕ → ℕ → F) (s : ℕ → F)
+    (hV1 : (toMat m V)ᴴ * toMat m V = 1) (hV2 : toMat m V * (toMat m V)ᴴ = 1)
+    (hs : ∀ a b, a < m → b < m → s a + s b ≠ 0) (δ : Matrix (Fin m) (Fin m) F)
+    (h : δ * specMat m V s + specMat m V s * δ = 0) : δ = 0 := by
+  set Vm := toMat m V with hVm
+  set D : Matrix (Fin m) (Fin m) F := Matrix.diagonal (fun a : Fin m => s a.val) with hD
+  set W := Vmᴴ * δ * Vm with hW
+  have hWD : W * D + D * W = 0 := by
+    have := congrArg (fun X => Vmᴴ * X * Vm) h
+    simp only [specMat, Matrix.mul_add, Matrix.add_mul, Matrix.mul_zero, Matrix.zero_mul] at this
+    calc W * D + D * W = Vmᴴ * (δ * (Vm * D * Vmᴴ)) * Vm + Vmᴴ * (Vm * D * Vmᴴ * δ) * Vm := by
+          simp only [hW, Matrix.mul_assoc]
+          have e1 : Vmᴴ * (Vm * (D * (Vmᴴ * (δ * Vm)))) = (Vmᴴ * Vm) * (D * (Vmᴴ * (δ * Vm))) := by simp only [Matrix.mul_assoc]
+          have e2 : Vmᴴ * (δ * (Vm * (D * (Vmᴴ * Vm)))) = Vmᴴ * (δ * (Vm * D)) := by rw [hV1, Matrix.mul_one]
+          rw [e1, e2, hV1, Matrix.one_mul]
+      _ = 0 := this
+  have hW0 : W = 0 := by
+    ext a b
+    have := congrFun (congrFun hWD a) b
+    simp only [hD, Matrix.add_apply, Matrix.mul_diagonal, Matrix.diagonal_mul, Matrix.zero_apply] at this
+    have hne := hs b.val a.val b.isLt a.isLt
+    have : W a b * (s b.val + s a.val) = 0 := by rw [mul_add]; linear_combination this
+    rcases mul_eq_zero.1 this with h0 | h0
+    · exact h0
+    · exact absurd h0 hne
+  calc δ = (Vm * Vmᴴ) * δ * (Vm * Vmᴴ) := by rw [hV2]; simp
+    _ = Vm * W * Vmᴴ := by simp only [hW, Matrix.mul_assoc]
+    _ = 0 := by rw [hW0]; simp
+
 omit [DecidableEq F] in
 /-- squaring the operator squares the roots (`V` unitary): the chain really is `S, S², S⁴, …` -/
 theorem specMat_sq (V : ℕ → ℕ → F) (hV1 : (toMat m V)ᴴ * toMat m V = 1) (s : ℕ → F) :
@@ -556,6 +681,47 @@ theorem specMat_sq (V : ℕ → ℕ → F) (hV1 : (toMat m V)ᴴ * toMat m V = 1
     _ = _ := by rw [Matrix.diagonal_mul_diagonal]
 
 end sylvrepeat
+
+/-! ### the forward map over ℂ (real eigenvalues, complex eigenvectors) -/
+
+section sqrtmC
+open Channel
+
+/-- over ℂ: `sqrt`, `max`, `log` act on the (real) eigenvalues -/
+noncomputable instance analyticComplex : Analytic ℂ :=
+  ⟨fun z => (Real.log z.re : ℂ), fun z => (Real.sqrt z.re : ℂ), fun a b => ((max a.re b.re : ℝ) : ℂ)⟩
+
+theorem storedRoots_real (r : ℕ) (ev : ℕ → ℝ) (a : ℕ) :
+    ∃ y : ℝ, 0 ≤ y ∧ storedRoots r (fun a => (ev a : ℂ)) a = (y : ℂ) := by
+  induction r with
+  | zero =>
+    refine ⟨max 0 (ev a), le_max_left _ _, ?_⟩
+    simp [storedRoots, rootIter, Analytic.max]
+  | succ r ih =>
+    obtain ⟨y, hy, e⟩ := ih
+    refine ⟨Real.sqrt y, Real.sqrt_nonneg _, ?_⟩
+    simp only [storedRoots, rootIter] at e ⊢
+    rw [e]; simp [Analytic.sqrt]
+
+/-- one more square root: the stored roots of `repeat = r+1` square to those of `repeat = r` -/
+theorem storedRoots_sq (r : ℕ) (ev : ℕ → ℝ) (a : ℕ) :
+    storedRoots (r + 1) (fun a => (ev a : ℂ)) a * storedRoots (r + 1) (fun a => (ev a : ℂ)) a
+      = storedRoots r (fun a => (ev a : ℂ)) a := by
+  obtain ⟨y, hy, e⟩ := storedRoots_real r ev a
+  have e' : storedRoots (r + 1) (fun a => (ev a : ℂ)) a = (Real.sqrt y : ℂ) := by
+    simp only [storedRoots, rootIter] at e ⊢
+    rw [e]; simp [Analytic.sqrt]
+  rw [e', e, ← Complex.ofReal_mul, Real.mul_self_sqrt hy]
+
+theorem storedRoots_zero (ev : ℕ → ℝ) (hev : ∀ a, 0 ≤ ev a) (a : ℕ) : storedRoots 0 (fun a => (ev a : ℂ)) a = (ev a : ℂ) := by
+  simp [storedRoots, rootIter, Analytic.max, max_eq_right (hev a)]
+
+theorem storedRoots_star (r : ℕ) (ev : ℕ → ℝ) (a : ℕ) :
+    star (storedRoots r (fun a => (ev a : ℂ)) a) = storedRoots r (fun a => (ev a : ℂ)) a := by
+  obtain ⟨y, _, e⟩ := storedRoots_real r ev a
+  rw [e]; exact Complex.conj_ofReal y
+
+end sqrtmC
 
 /-! ### flat-parameter bridge -/
 
@@ -715,6 +881,222 @@ theorem slotOf_injective (gs : List GateDesc) (i j : ℕ) (hi : i < gs.length) (
           exact (List.idxOf_inj (mem_firstComeIds gs _ gs[i] (List.getElem_mem hi) ti (by simpa using pi) rfl)).1 er
         · rw [if_neg tj] at h2; exact absurd h2 (by simp)
     · rw [if_neg ti] at h1; exact absurd h1 (by simp)
+
+/-! ### the array-level folds of the driver are the modelled folds (audit M6) -/
+
+section bridge
+variable {α : Type} [Add α] [Mul α] [Zero α] [Conj α] {n : Nat}
+
+theorem forwardA_eq (Θ : Params α) (gates : List (PGate n α)) (a : Array α) :
+    lookup (n := n) (forwardA Θ gates a) = forward Θ gates (lookup a) := by
+  induction gates generalizing a with
+  | nil => rfl
+  | cons g rest ih =>
+    have h1 : forwardA Θ (g :: rest) a = forwardA Θ rest (tabulate (n := n) (g.apply Θ (lookup a))) := rfl
+    have h2 : forward Θ (g :: rest) (lookup a) = forward Θ rest (g.apply Θ (lookup a)) := rfl
+    rw [h1, h2, ih, lookup_tabulate]
+
+theorem paramsOf_absent (tab : ParamTable α) (k s : ℕ) (h : ∀ e ∈ tab, ¬ (e.1 = k ∧ e.2.1 = s)) :
+    paramsOf tab k s = fun _ _ => 0 := by
+  unfold paramsOf
+  have : (tab.find? fun e => e.1 == k && e.2.1 == s) = none := by
+    rw [List.find?_eq_none]; intro e he; have := h e he; simp; tauto
+  rw [this]
+
+/-- re-tabulating every entry of the table from a family `F` gives back `F` on the keys and `0` elsewhere -/
+theorem paramsOf_retab (tab : ParamTable α) (F : Params α) (k s : ℕ) :
+    paramsOf (tab.map fun e => (e.1, e.2.1, tabulateMat (k := e.1) (F e.1 e.2.1))) k s
+      = if ∃ e ∈ tab, e.1 = k ∧ e.2.1 = s then F k s else fun _ _ => 0 := by
+  unfold paramsOf
+  rw [List.find?_map]
+  cases hf : tab.find? ((fun e : ℕ × ℕ × Array α => e.1 == k && e.2.1 == s) ∘
+      fun e => (e.1, e.2.1, tabulateMat (k := e.1) (F e.1 e.2.1))) with
+  | none =>
+    have hnone : ¬ ∃ e ∈ tab, e.1 = k ∧ e.2.1 = s := by
+      rintro ⟨e, he, h1, h2⟩
+      have := List.find?_eq_none.1 hf e he
+      simp [Function.comp, h1, h2] at this
+    rw [if_neg hnone]; rfl
+  | some e =>
+    have hmem := List.mem_of_find?_eq_some hf
+    have hp := List.find?_some hf
+    simp only [Function.comp, Bool.and_eq_true, beq_iff_eq] at hp
+    obtain ⟨h1, h2⟩ := hp
+    rw [if_pos ⟨e, hmem, h1, h2⟩]
+    subst h1; subst h2
+    simp only [Option.map_some]
+    exact lookupMat_tabulateMat _
+
+theorem addAt_other (G : Params α) (k0 s0 : ℕ) (D : Mat k0 α) (k s : ℕ) (h : ¬ (k = k0 ∧ s = s0)) :
+    addAt G k0 s0 D k s = G k s := by
+  unfold addAt
+  by_cases hk : k = k0
+  · have hs : ¬ s = s0 := fun e => h ⟨hk, e⟩
+    simp [hk, hs]
+  · simp [hk]
+
+theorem keys_map (tab : ParamTable α) (F : Params α) (k s : ℕ) :
+    (∃ e ∈ tab.map (fun e => (e.1, e.2.1, tabulateMat (k := e.1) (F e.1 e.2.1))), e.1 = k ∧ e.2.1 = s)
+      ↔ ∃ e ∈ tab, e.1 = k ∧ e.2.1 = s := by
+  constructor
+  · rintro ⟨e, he, h1, h2⟩
+    rw [List.mem_map] at he
+    obtain ⟨e0, he0, rfl⟩ := he
+    exact ⟨e0, he0, h1, h2⟩
+  · rintro ⟨e, he, h1, h2⟩
+    exact ⟨_, List.mem_map.2 ⟨e, he, rfl⟩, h1, h2⟩
+
+/-- one gate of the driver's backward loop is one gate of the modelled loop (guard: the gate's slot is a key of the table) -/
+theorem absSt_backA (Θ : Params α) (gate : PGate n α) (st : StA α) (hc : gate.Covered st.2.2) :
+    absSt (n := n) (gate.backA Θ st) = gate.back Θ (absSt st) := by
+  have key : ∀ (r : Vec n α × Vec n α × Params α), (∀ k s, (¬ ∃ e ∈ st.2.2, e.1 = k ∧ e.2.1 = s) → r.2.2 k s = fun _ _ => 0) →
+      absSt (n := n) (tabulate r.1, tabulate r.2.1,
+        st.2.2.map fun e => (e.1, e.2.1, tabulateMat (k := e.1) (r.2.2 e.1 e.2.1))) = r := by
+    intro r hr
+    unfold absSt
+    simp only [lookup_tabulate]
+    refine Prod.ext rfl (Prod.ext rfl ?_)
+    funext k s
+    show paramsOf _ k s = r.2.2 k s
+    rw [paramsOf_retab]
+    by_cases h : ∃ e ∈ st.2.2, e.1 = k ∧ e.2.1 = s
+    · rw [if_pos h]
+    · rw [if_neg h, hr k s h]
+  have habs : ∀ k s, (¬ ∃ e ∈ st.2.2, e.1 = k ∧ e.2.1 = s) → paramsOf st.2.2 k s = fun _ _ => 0 :=
+    fun k s h => paramsOf_absent _ k s (fun e he hh => h ⟨e, he, hh⟩)
+  unfold PGate.backA
+  apply key
+  intro k s hks
+  cases gate with
+  | unitary src t =>
+    cases src with
+    | fixed U => exact habs k s hks
+    | param s0 =>
+      obtain ⟨e, he, h1, h2⟩ := hc
+      show addAt _ _ s0 _ k s = _
+      rw [addAt_other _ _ _ _ _ _ (fun hh => hks ⟨e, he, h1.trans hh.1.symm, h2.trans hh.2.symm⟩)]
+      exact habs k s hks
+  | control src c r tn =>
+    cases src with
+    | fixed U => exact habs k s hks
+    | param s0 =>
+      obtain ⟨e, he, h1, h2⟩ := hc
+      show addAt _ _ s0 _ k s = _
+      rw [addAt_other _ _ _ _ _ _ (fun hh => hks ⟨e, he, h1.trans hh.1.symm, h2.trans hh.2.symm⟩)]
+      exact habs k s hks
+
+theorem covered_backA (Θ : Params α) (g g' : PGate n α) (st : StA α) (h : g.Covered st.2.2) :
+    g.Covered (g'.backA Θ st).2.2 := by
+  unfold PGate.backA
+  cases g with
+  | unitary src t => cases src with
+    | fixed U => trivial
+    | param s0 => exact (keys_map _ _ _ _).2 h
+  | control src c r tn => cases src with
+    | fixed U => trivial
+    | param s0 => exact (keys_map _ _ _ _).2 h
+
+/-- **the driver's backward sweep is the modelled `backward`** (guard: every parametrised gate's slot is a key of the table) -/
+theorem backwardA_eq (Θ : Params α) (gates : List (PGate n α)) (init : StA α) (hc : ∀ g ∈ gates, g.Covered init.2.2) :
+    absSt (n := n) (backwardA Θ gates init) = backward Θ gates (absSt init) ∧
+    ∀ g : PGate n α, g.Covered init.2.2 → g.Covered (backwardA Θ gates init).2.2 := by
+  induction gates with
+  | nil => exact ⟨rfl, fun g h => h⟩
+  | cons gate rest ih =>
+    obtain ⟨ih1, ih2⟩ := ih (fun g hg => hc g (List.mem_cons_of_mem _ hg))
+    have h1 : backwardA Θ (gate :: rest) init = gate.backA Θ (backwardA Θ rest init) := rfl
+    have h2 : backward Θ (gate :: rest) (absSt init) = gate.back Θ (backward Θ rest (absSt init)) := rfl
+    rw [h1, h2, ← ih1]
+    exact ⟨absSt_backA Θ gate _ (ih2 gate (hc gate List.mem_cons_self)),
+      fun g hg => covered_backA Θ g gate _ (ih2 g hg)⟩
+
+omit [Add α] [Mul α] [Zero α] [Conj α] in
+theorem coveredB_iff (tab : ParamTable α) (g : PGate n α) : g.coveredB tab = true ↔ g.Covered tab := by
+  cases g with
+  | unitary src t => cases src with
+    | fixed U => simp [PGate.coveredB, PGate.Covered]
+    | param s0 =>
+      simp only [PGate.coveredB, PGate.Covered, List.any_eq_true, Bool.and_eq_true, beq_iff_eq]
+  | control src c r tn => cases src with
+    | fixed U => simp [PGate.coveredB, PGate.Covered]
+    | param s0 =>
+      simp only [PGate.coveredB, PGate.Covered, List.any_eq_true, Bool.and_eq_true, beq_iff_eq]
+
+end bridge
+
+/-! ### the canonical slot of a gate -/
+
+theorem repSlot_eq_iff (gs : List GateDesc) (i j : ℕ) (hi : i < gs.length)
+    (p q : String × ℕ) (h1 : slotOf gs i = some p) (h2 : slotOf gs j = some q) :
+    repSlot gs i = repSlot gs j ↔ p = q := by
+  unfold repSlot
+  rw [h1, h2]
+  simp only
+  constructor
+  · intro h
+    have hfi : ∃ a, (List.range gs.length).find? (fun j => slotOf gs j == some p) = some a := by
+      rw [← Option.isSome_iff_exists, List.find?_isSome]
+      exact ⟨i, List.mem_range.2 hi, by simp [h1]⟩
+    obtain ⟨a, ha⟩ := hfi
+    have hb := h ▸ ha
+    have e1 := List.find?_some ha
+    have e2 := List.find?_some hb
+    simp only [beq_iff_eq] at e1 e2
+    exact Option.some.inj (e1.symm.trans e2)
+  · rintro rfl; rfl
+
+/-! ### the tabulated Sylvester loop of the driver is `sylvBackward` (audit M6) -/
+
+section sylvbridge
+variable {α : Type} [Add α] [Mul α] [Div α] [Zero α] [Conj α] [DecidableEq α]
+
+omit [Mul α] [Div α] [Conj α] [DecidableEq α] in
+theorem sumRange_congr (n : ℕ) (f g : ℕ → α) (h : ∀ i, i < n → f i = g i) : sumRange n f = sumRange n g := by
+  induction n with
+  | zero => rfl
+  | succ n ih =>
+    simp only [sumRange]
+    rw [ih (fun i hi => h i (Nat.lt_succ_of_lt hi)), h n (Nat.lt_succ_self n)]
+
+omit [Add α] [Mul α] [Div α] [Conj α] [DecidableEq α] in
+theorem ofTab_tabMat (m : ℕ) (X : ℕ → ℕ → α) (i j : ℕ) (hi : i < m) (hj : j < m) : ofTab m (tabMat m X) i j = X i j := by
+  unfold ofTab tabMat
+  have hlt : i * m + j < m * m := mul_add_lt hi hj
+  rw [getD_ofFn _ _ hlt]
+  simp only [div_of_lt hj, mod_of_lt hj]
+
+theorem sylvStep_congr (m : ℕ) (V : ℕ → ℕ → α) (s : ℕ → α) (G G' : ℕ → ℕ → α)
+    (h : ∀ p q, p < m → q < m → G p q = G' p q) : sylvStep m V s G = sylvStep m V s G' := by
+  have hin : ∀ a b, rotateIn m V G a b = rotateIn m V G' a b := by
+    intro a b
+    unfold rotateIn
+    refine sumRange_congr m _ _ fun p hp => sumRange_congr m _ _ fun q hq => ?_
+    rw [h p q hp hq]
+  funext i j
+  unfold sylvStep rotateOut
+  simp only [hin]
+
+theorem sylvBackward_congr (m : ℕ) (V : ℕ → ℕ → α) (r : ℕ) (s : ℕ → α) (G G' : ℕ → ℕ → α)
+    (h : ∀ p q, p < m → q < m → G p q = G' p q) (i j : ℕ) (hi : i < m) (hj : j < m) :
+    sylvBackward m V r s G i j = sylvBackward m V r s G' i j := by
+  cases r with
+  | zero => exact h i j hi hj
+  | succ r =>
+    show sylvBackward m V r _ (sylvStep m V s G) i j = sylvBackward m V r _ (sylvStep m V s G') i j
+    rw [sylvStep_congr m V s G G' h]
+
+/-- **the driver's tabulated loop computes `sylvBackward`** on the `m × m` block -/
+theorem sylvBackwardA_eq (m : ℕ) (V : ℕ → ℕ → α) (r : ℕ) (s : ℕ → α) (G : Array α) (i j : ℕ) (hi : i < m) (hj : j < m) :
+    ofTab m (sylvBackwardA m V r s G) i j = sylvBackward m V r s (ofTab m G) i j := by
+  induction r generalizing s G with
+  | zero => rfl
+  | succ r ih =>
+    show ofTab m (sylvBackwardA m V r _ (tabMat m (sylvStep m V s (ofTab m G)))) i j
+      = sylvBackward m V r _ (sylvStep m V s (ofTab m G)) i j
+    rw [ih]
+    exact sylvBackward_congr m V r _ _ _ (fun p q hp hq => ofTab_tabMat m _ p q hp hq) i j hi hj
+
+end sylvbridge
 
 /-! ### hand-off bookkeeping -/
 
